@@ -95,8 +95,9 @@ bool ASTInterpreter::NameCollector::ViImperative(Cursor iter) {
     switch (child->id) {
       case TokenID::ITERATE:
       case TokenID::ASSIGN: {
-        const auto varID = *begin(parent.nodeVars[iter.Child(0).get()]);
-        vars.erase(std::remove(begin(vars), end(vars), varID), end(vars));
+        for (const auto varID : parent.nodeVars[child.Child(0).get()]) {
+          vars.erase(std::remove(begin(vars), end(vars), varID), end(vars));
+        }
         break;
       }
       default: break;
